@@ -158,6 +158,33 @@ func checkC12(c *Ctx) {
 			it := pj.Iter()
 			impl := safeStr(func() string { return showElem(it.FindElement(nil, path...)) })
 			addQ(doc, fmt.Sprintf("find %s 0 0 elem %s", st, hexList(path)), impl, fmt.Sprintf("FindElement %q", path))
+			// the same lookup from an iterator that reached the root through Advance() (it then
+			// stands on the root tag with the root's extent queued), through AdvanceInto, and from
+			// the iterator Root() hands out: all must find what the fresh iterator finds
+			for route, mk := range []func() (simdjson.Iter, bool){
+				func() (simdjson.Iter, bool) { x := pj.Iter(); return x, x.Advance() == simdjson.TypeRoot },
+				func() (simdjson.Iter, bool) { x := pj.Iter(); return x, x.AdvanceInto() == simdjson.TagRoot },
+				func() (simdjson.Iter, bool) {
+					x := pj.Iter()
+					if x.Advance() != simdjson.TypeRoot {
+						return x, false
+					}
+					_, y, err := x.Root(nil)
+					if err != nil {
+						return x, false
+					}
+					return *y, true
+				},
+			} {
+				if x, ok := mk(); ok {
+					got := safeStr(func() string { return showElem(x.FindElement(nil, path...)) })
+					c.Ev.Count("FindElement-routes", []byte(fmt.Sprint(route, path, string(doc))), true)
+					if got != impl {
+						c.Violate("lookup", "FindElement from an iterator that reached the root by Advance / AdvanceInto / Root() differs from FindElement on a fresh iterator", "c12-findelement-route",
+							map[string]interface{}{"doc_hex": fmt.Sprintf("%x", doc), "doc_text": printable(doc), "query": fmt.Sprintf("FindElement %q, route %d", path, route), "route_result": trunc(got, 300), "fresh_result": trunc(impl, 300)})
+					}
+				}
+			}
 		}
 		narr := 0
 		for _, p := range pos {
